@@ -13,20 +13,26 @@
 #include <thread>
 #include <atomic>
 #include <condition_variable>
+#include <poll.h>
+#include <sys/epoll.h>
+#include <sys/select.h>
+#include <sys/time.h>
+#include <sys/syscall.h>
 
 namespace sched {
 typedef int (*mutex_fn)(pthread_mutex_t*); typedef int (*rw_fn)(pthread_rwlock_t*); typedef int (*cw_fn)(pthread_cond_t*,pthread_mutex_t*); typedef int (*c_fn)(pthread_cond_t*);
 static mutex_fn real_mlock,real_munlock,real_mtrylock; static rw_fn real_rd,real_wr,real_rwunlock; static cw_fn real_cwait; static c_fn real_csignal,real_cbroadcast;
 static void resolve(){ static bool done=false; if(done) return; done=true; real_mlock=(mutex_fn)dlsym(RTLD_NEXT,"pthread_mutex_lock"); real_munlock=(mutex_fn)dlsym(RTLD_NEXT,"pthread_mutex_unlock"); real_mtrylock=(mutex_fn)dlsym(RTLD_NEXT,"pthread_mutex_trylock"); real_rd=(rw_fn)dlsym(RTLD_NEXT,"pthread_rwlock_rdlock"); real_wr=(rw_fn)dlsym(RTLD_NEXT,"pthread_rwlock_wrlock"); real_rwunlock=(rw_fn)dlsym(RTLD_NEXT,"pthread_rwlock_unlock"); real_cwait=(cw_fn)dlsym(RTLD_NEXT,"pthread_cond_wait"); real_csignal=(c_fn)dlsym(RTLD_NEXT,"pthread_cond_signal"); real_cbroadcast=(c_fn)dlsym(RTLD_NEXT,"pthread_cond_broadcast"); }
 
-enum OpKind { OP_NONE, OP_MLOCK, OP_MUNLOCK, OP_RDLOCK, OP_WRLOCK, OP_RWUNLOCK, OP_CWAIT, OP_CREACQ, OP_CSIGNAL, OP_CBROADCAST, OP_START, OP_YIELD };
-struct Thread { int id; std::thread th; OpKind pending; void *obj; void *obj2; bool finished; bool waiting_cond; std::function<void()> body; Thread():id(0),pending(OP_NONE),obj(0),obj2(0),finished(false),waiting_cond(false){} };
+enum OpKind { OP_NONE, OP_MLOCK, OP_MUNLOCK, OP_RDLOCK, OP_WRLOCK, OP_RWUNLOCK, OP_CWAIT, OP_CREACQ, OP_CSIGNAL, OP_CBROADCAST, OP_START, OP_YIELD, OP_POLL, OP_JOIN };
+struct Thread { pthread_cond_t tcv; int id; std::thread th; pthread_t pth; bool adopted; OpKind pending; void *obj; void *obj2; bool finished; bool waiting_cond; std::function<void()> body; std::function<bool()> probe; long long deadline_ms; /* virtual, -1 = none */ int join_target; void *(*start)(void*); void *arg; Thread():id(0),adopted(false),pending(OP_NONE),obj(0),obj2(0),finished(false),waiting_cond(false),deadline_ms(-1),join_target(-1),start(0),arg(0){ pthread_cond_init(&tcv,0); } };
 struct MutexSt { int owner; int count; MutexSt():owner(-1),count(0){} }; struct RwSt { int writer; std::map<int,int> readers; RwSt():writer(-1){} };
 struct Point { int n; bool current_enabled; int chosen; };
-struct State { bool active; std::vector<Thread*> threads; int current; pthread_mutex_t mx; pthread_cond_t cv; std::map<void*,MutexSt> mutexes; std::map<void*,RwSt> rwlocks; std::map<void*,std::vector<int> > cond_waiters; std::vector<int> prefix; std::vector<Point> points; bool deadlock; bool diverged; std::string trace; uint64_t readers_overlap,writer_waited; State():active(false),current(-1),deadlock(false),diverged(false),readers_overlap(0),writer_waited(0){ pthread_mutex_init(&mx,0); pthread_cond_init(&cv,0); } };
+struct State { bool active; std::vector<Thread*> threads; int current; pthread_mutex_t mx; pthread_cond_t cv; std::map<void*,MutexSt> mutexes; std::map<void*,RwSt> rwlocks; std::map<void*,std::vector<int> > cond_waiters; std::vector<int> prefix; std::vector<Point> points; bool deadlock; bool diverged; std::string trace; uint64_t readers_overlap,writer_waited; long long vnow_ms; bool virtual_clock; long long horizon_ms; int horizon_jumps; int time_advances; bool adopt_threads; State():active(false),current(-1),deadlock(false),diverged(false),readers_overlap(0),writer_waited(0),vnow_ms(0),virtual_clock(false),horizon_ms(600000),horizon_jumps(0),time_advances(0),adopt_threads(false){ pthread_mutex_init(&mx,0); pthread_cond_init(&cv,0); } };
 static State G; static thread_local int tl_id=-1;
 
-static bool enabled(Thread *t){ if(t->finished) return false; switch(t->pending){ case OP_MLOCK: case OP_CREACQ: { MutexSt &m=G.mutexes[t->obj]; return m.owner<0||m.owner==t->id; } case OP_RDLOCK:{ RwSt &r=G.rwlocks[t->obj]; return r.writer<0; } case OP_WRLOCK:{ RwSt &r=G.rwlocks[t->obj]; return r.writer<0&&r.readers.empty(); } case OP_CWAIT: return false; /* until signalled (turned into OP_CREACQ) */ default: return true; } }
+static void wake_all(){ for(size_t i=0;i<G.threads.size();i++) real_csignal(&G.threads[i]->tcv); real_cbroadcast(&G.cv); }
+static bool enabled(Thread *t){ if(t->finished) return false; switch(t->pending){ case OP_MLOCK: case OP_CREACQ: { MutexSt &m=G.mutexes[t->obj]; return m.owner<0||m.owner==t->id; } case OP_RDLOCK:{ RwSt &r=G.rwlocks[t->obj]; return r.writer<0; } case OP_WRLOCK:{ RwSt &r=G.rwlocks[t->obj]; return r.writer<0&&r.readers.empty(); } case OP_CWAIT: return false; /* until signalled (turned into OP_CREACQ) */ case OP_JOIN: return t->join_target<0||G.threads[t->join_target]->finished; case OP_POLL: return (t->deadline_ms>=0&&G.vnow_ms>=t->deadline_ms)||(t->probe&&t->probe()); default: return true; } }
 // apply the pending operation of t to the model (called by t itself when it holds the baton)
 static void apply(Thread *t){ switch(t->pending){ case OP_MLOCK: case OP_CREACQ:{ MutexSt &m=G.mutexes[t->obj]; m.owner=t->id; m.count++; break; } case OP_MUNLOCK:{ MutexSt &m=G.mutexes[t->obj]; if(m.owner==t->id&&--m.count==0) m.owner=-1; break; }
 	case OP_RDLOCK:{ RwSt &r=G.rwlocks[t->obj]; r.readers[t->id]++; if(r.readers.size()>1) G.readers_overlap++; break; } case OP_WRLOCK:{ G.rwlocks[t->obj].writer=t->id; break; } case OP_RWUNLOCK:{ RwSt &r=G.rwlocks[t->obj]; if(r.writer==t->id) r.writer=-1; else { std::map<int,int>::iterator i=r.readers.find(t->id); if(i!=r.readers.end()&&--i->second==0) r.readers.erase(i); } break; }
@@ -34,21 +40,27 @@ static void apply(Thread *t){ switch(t->pending){ case OP_MLOCK: case OP_CREACQ:
 	t->pending=OP_NONE; }
 // pick the next thread to run; called with G.mx held by the thread that reached a scheduling point (or finished)
 static void schedule_next(){ std::vector<int> en; Thread *cur= G.current>=0?G.threads[G.current]:0; bool cur_en= cur&&enabled(cur); if(cur_en) en.push_back(cur->id); for(size_t i=0;i<G.threads.size();i++) if((int)i!=G.current&&enabled(G.threads[i])) en.push_back(i);
-	if(en.empty()){ bool all=true; for(size_t i=0;i<G.threads.size();i++) if(!G.threads[i]->finished) all=false; if(!all){ /* deadlock: threads cannot be unwound; report and leave the process (the fork supervisor turns this into a violation with the announced program) */ std::string ch; for(size_t i=0;i<G.points.size();i++) ch+=(i?",":"")+std::to_string(G.points[i].chosen); fprintf(stderr,"DEADLOCK: no enabled thread; schedule=%s\n",ch.c_str()); fflush(stderr); _exit(97); } G.current=-2; /* everybody finished */ real_cbroadcast(&G.cv); return; }
+	// a timed wait whose deadline has not come yet: advancing the virtual clock to the earliest such deadline is one more alternative
+	int timed=-1; long long best=-1; for(size_t i=0;i<G.threads.size();i++){ Thread *t=G.threads[i]; if(!t->finished&&t->pending==OP_POLL&&t->deadline_ms>=0&&G.vnow_ms<t->deadline_ms&&!enabled(t)&&(best<0||t->deadline_ms<best)){ best=t->deadline_ms; timed=i; } }
+	if(en.empty()&&timed>=0){ if(best-G.vnow_ms>=G.horizon_ms) G.horizon_jumps++; G.vnow_ms=best; G.time_advances++; en.push_back(timed); timed=-1; }
+	if(en.empty()){ bool all=true; for(size_t i=0;i<G.threads.size();i++) if(!G.threads[i]->finished) all=false; if(!all){ /* deadlock: threads cannot be unwound; report and leave the process (the fork supervisor turns this into a violation with the announced program) */ std::string ch; for(size_t i=0;i<G.points.size();i++) ch+=(i?",":"")+std::to_string(G.points[i].chosen); fprintf(stderr,"DEADLOCK: no enabled thread; schedule=%s\n",ch.c_str()); for(size_t i=0;i<G.threads.size();i++) fprintf(stderr,"  thread %zu: finished=%d pending=%d obj=%p\n",i,(int)G.threads[i]->finished,(int)G.threads[i]->pending,G.threads[i]->obj); fflush(stderr); _exit(97); } G.current=-2; /* everybody finished */ wake_all(); return; }
+	bool time_alt= timed>=0&&best-G.vnow_ms<G.horizon_ms; if(time_alt) en.push_back(-1-timed); // encoded alternative: advance the clock, then run that thread
 	int choice=0; if(en.size()>1){ size_t pi=G.points.size(); if(pi<G.prefix.size()){ choice=G.prefix[pi]; if(choice>=(int)en.size()){ G.diverged=true; choice=0; } } Point p; p.n=en.size(); p.current_enabled=cur_en; p.chosen=choice; G.points.push_back(p); }
 	for(size_t i=0;i<G.threads.size();i++){ Thread *t=G.threads[i]; if(!t->finished&&t->pending==OP_WRLOCK&&!enabled(t)&&!G.rwlocks[t->obj].readers.empty()) G.writer_waited++; }
-	G.current=en[choice]; real_cbroadcast(&G.cv); }
-static void wait_turn(int id){ while(G.current!=id&&G.current!=-2) real_cwait(&G.cv,&G.mx); }
+	int pick=en[choice]; if(pick<0){ int t=-1-pick; G.vnow_ms=G.threads[t]->deadline_ms; G.time_advances++; pick=t; } G.current=pick; real_csignal(&G.threads[pick]->tcv); }
+// each thread sleeps on its own condition variable: handing over the baton wakes exactly one thread
+static void wait_turn(int id){ Thread *t=G.threads[id]; while(G.current!=id&&G.current!=-2) real_cwait(&t->tcv,&G.mx); }
+
 // a scheduling point of the calling (registered) thread
 static void point(OpKind k,void *obj,void *obj2=0){ Thread *t=G.threads[tl_id]; real_mlock(&G.mx); t->pending=k; t->obj=obj; t->obj2=obj2; if(k==OP_CWAIT){ /* release the mutex and join the wait set before anybody else runs */ MutexSt &m=G.mutexes[obj2]; if(m.owner==t->id&&--m.count==0) m.owner=-1; G.cond_waiters[obj].push_back(t->id); }
 	schedule_next(); wait_turn(t->id); if(G.current==-2){ /* deadlock: let everybody run out (operations become no-ops on the model) */ t->pending=OP_NONE; real_munlock(&G.mx); return; } apply(t); real_munlock(&G.mx); }
 static void thread_main(Thread *t){ tl_id=t->id; real_mlock(&G.mx); wait_turn(t->id); real_munlock(&G.mx); if(G.current!=-2){ try{ t->body(); }catch(...){ } } real_mlock(&G.mx); t->finished=true; t->pending=OP_NONE; if(G.current==t->id) schedule_next(); real_munlock(&G.mx); tl_id=-1; }
 
-struct Result { bool deadlock,diverged; std::vector<Point> points; std::string choices; };
+struct Result { bool deadlock,diverged; std::vector<Point> points; std::string choices; int horizon_jumps,time_advances; long long vnow_ms; };
 // run the bodies under the schedule given by `prefix` (choice index at every point with > 1 enabled threads; 0 afterwards)
-static Result run(const std::vector<std::function<void()> > &bodies,const std::vector<int> &prefix){ resolve(); G.threads.clear(); G.mutexes.clear(); G.rwlocks.clear(); G.cond_waiters.clear(); G.points.clear(); G.prefix=prefix; G.deadlock=false; G.diverged=false; G.current=-1; std::vector<Thread*> ts; for(size_t i=0;i<bodies.size();i++){ Thread *t=new Thread(); t->id=i; t->body=bodies[i]; t->pending=OP_START; ts.push_back(t); } G.threads=ts; G.active=true;
-	for(size_t i=0;i<ts.size();i++) ts[i]->th=std::thread(thread_main,ts[i]); real_mlock(&G.mx); schedule_next(); real_munlock(&G.mx); for(size_t i=0;i<ts.size();i++) ts[i]->th.join(); G.active=false;
-	Result r; r.deadlock=G.deadlock; r.diverged=G.diverged; r.points=G.points; for(size_t i=0;i<G.points.size();i++){ if(i) r.choices+=","; r.choices+=std::to_string(G.points[i].chosen); } for(size_t i=0;i<ts.size();i++) delete ts[i]; G.threads.clear(); return r; }
+static Result run(const std::vector<std::function<void()> > &bodies,const std::vector<int> &prefix){ resolve(); G.threads.clear(); G.mutexes.clear(); G.rwlocks.clear(); G.cond_waiters.clear(); G.points.clear(); G.prefix=prefix; G.deadlock=false; G.diverged=false; G.current=-1; G.vnow_ms=0; G.horizon_jumps=0; G.time_advances=0; std::vector<Thread*> ts; for(size_t i=0;i<bodies.size();i++){ Thread *t=new Thread(); t->id=i; t->body=bodies[i]; t->pending=OP_START; ts.push_back(t); } G.threads=ts; G.active=true;
+	for(size_t i=0;i<ts.size();i++) ts[i]->th=std::thread(thread_main,ts[i]); real_mlock(&G.mx); schedule_next(); real_munlock(&G.mx); for(size_t i=0;i<ts.size();i++) ts[i]->th.join(); /* adopted threads (created by the code under test) are joined by that code; wait until they are marked finished */ for(;;){ bool all=true; real_mlock(&G.mx); for(size_t i=0;i<G.threads.size();i++) if(!G.threads[i]->finished) all=false; real_munlock(&G.mx); if(all) break; usleep(100); } G.active=false; ts=G.threads;
+	Result r; r.deadlock=G.deadlock; r.diverged=G.diverged; r.points=G.points; r.horizon_jumps=G.horizon_jumps; r.time_advances=G.time_advances; r.vnow_ms=G.vnow_ms; for(size_t i=0;i<G.points.size();i++){ if(i) r.choices+=","; r.choices+=std::to_string(G.points[i].chosen); } for(size_t i=0;i<ts.size();i++) delete ts[i]; G.threads.clear(); return r; }
 // explore all schedules with at most `bound` preemptions (bound<0: all). body_factory() builds fresh bodies (and fresh shared state)
 // for every execution; after(result) checks it. Returns number of executions; *complete=false if stopped early.
 static uint64_t explore(int bound,const std::function<std::vector<std::function<void()> >()> &factory,const std::function<void(const Result&)> &after,bool *complete=0,const std::function<bool()> &stop=[](){return false;}){ std::vector<std::vector<int> > stack; stack.push_back(std::vector<int>()); uint64_t runs=0; if(complete) *complete=true;
@@ -56,6 +68,13 @@ static uint64_t explore(int bound,const std::function<std::vector<std::function<
 		int cost=0; for(size_t i=0;i<p.size();i++) if(r.points[i].chosen!=0&&r.points[i].current_enabled) cost++;
 		for(size_t i=r.points.size();i-->p.size();){ int c=cost; /* choices beyond the prefix are 0: no added cost */ for(int alt=r.points[i].n-1;alt>=1;alt--){ int add= r.points[i].current_enabled?1:0; if(bound>=0&&c+add>bound) continue; std::vector<int> q; for(size_t k=0;k<i;k++) q.push_back(r.points[k].chosen); q.push_back(alt); stack.push_back(q); } } }
 	return runs; }
+// a plain scheduling point (harness bodies call it around operations that are not synchronisation operations themselves)
+static void yield_point(){ if(G.active&&tl_id>=0) point(OP_YIELD,0); }
+static int self_id(){ return tl_id; }
+// block the calling thread until pred() holds (evaluated by the scheduler whenever it looks for enabled threads)
+static void block_until(const std::function<bool()> &pred){ if(!(G.active&&tl_id>=0)){ while(!pred()) usleep(100); return; } Thread *t=G.threads[tl_id]; t->probe=pred; t->deadline_ms=-1; point(OP_POLL,0); t->probe=std::function<bool()>(); }
+// adoption of threads created by the code under test
+static void *adopted_main(void *p){ Thread *t=(Thread*)p; tl_id=t->id; real_mlock(&G.mx); wait_turn(t->id); real_munlock(&G.mx); void *r=0; try{ r=t->start(t->arg); }catch(...){ } real_mlock(&G.mx); t->finished=true; t->pending=OP_NONE; if(G.current==t->id) schedule_next(); real_munlock(&G.mx); tl_id=-1; return r; }
 } // namespace sched
 
 // ---- interposers -------------------------------------------------------------------------------------------------------
@@ -68,3 +87,24 @@ extern "C" int pthread_rwlock_unlock(pthread_rwlock_t *l){ if(SCHED_TRACKED()){ 
 extern "C" int pthread_cond_wait(pthread_cond_t *c,pthread_mutex_t *m){ if(SCHED_TRACKED()&&c!=&sched::G.cv){ sched::point(sched::OP_CWAIT,c,m); return 0; } sched::resolve(); return sched::real_cwait(c,m); }
 extern "C" int pthread_cond_signal(pthread_cond_t *c){ if(SCHED_TRACKED()&&c!=&sched::G.cv){ sched::point(sched::OP_CSIGNAL,c); return 0; } sched::resolve(); return sched::real_csignal(c); }
 extern "C" int pthread_cond_broadcast(pthread_cond_t *c){ if(SCHED_TRACKED()&&c!=&sched::G.cv){ sched::point(sched::OP_CBROADCAST,c); return 0; } sched::resolve(); return sched::real_cbroadcast(c); }
+
+// ---- threads created / joined by the code under test -----------------------------------------------------------------
+extern "C" int pthread_create(pthread_t *th,const pthread_attr_t *attr,void *(*start)(void*),void *arg){ typedef int (*fn)(pthread_t*,const pthread_attr_t*,void*(*)(void*),void*); static fn real=(fn)dlsym(RTLD_NEXT,"pthread_create");
+	if(SCHED_TRACKED()&&sched::G.adopt_threads){ sched::resolve(); sched::real_mlock(&sched::G.mx); sched::Thread *t=new sched::Thread(); t->id=sched::G.threads.size(); t->adopted=true; t->pending=sched::OP_START; t->start=start; t->arg=arg; sched::G.threads.push_back(t); sched::real_munlock(&sched::G.mx); int r=real(th,attr,sched::adopted_main,t); t->pth=*th; return r; }
+	return real(th,attr,start,arg); }
+extern "C" int pthread_join(pthread_t th,void **ret){ typedef int (*fn)(pthread_t,void**); static fn real=(fn)dlsym(RTLD_NEXT,"pthread_join");
+	if(SCHED_TRACKED()){ int target=-1; sched::real_mlock(&sched::G.mx); for(size_t i=0;i<sched::G.threads.size();i++) if(sched::G.threads[i]->adopted&&pthread_equal(sched::G.threads[i]->pth,th)) target=i; sched::real_munlock(&sched::G.mx); if(target>=0){ sched::G.threads[sched::tl_id]->join_target=target; sched::point(sched::OP_JOIN,0); sched::G.threads[sched::tl_id]->join_target=-1; } }
+	return real(th,ret); }
+// ---- blocking waits on descriptors: enabled iff a zero-timeout probe reports an event or the virtual deadline passed ----
+static int sched_real_poll(struct pollfd *f,nfds_t n,int to){ return syscall(SYS_poll,f,n,to); }
+static int sched_real_epoll_wait(int ep,struct epoll_event *e,int n,int to){ return syscall(SYS_epoll_wait,ep,e,n,to); }
+extern "C" int poll(struct pollfd *fds,nfds_t n,int timeout){ if(SCHED_TRACKED()&&timeout!=0){ sched::Thread *t=sched::G.threads[sched::tl_id]; std::vector<struct pollfd> copy(fds,fds+n); t->probe=[copy]()mutable{ for(size_t i=0;i<copy.size();i++) copy[i].revents=0; return sched_real_poll(copy.empty()?0:&copy[0],copy.size(),0)>0; }; t->deadline_ms= timeout<0?-1:sched::G.vnow_ms+timeout; sched::point(sched::OP_POLL,0); t->probe=std::function<bool()>(); t->deadline_ms=-1; return sched_real_poll(fds,n,0); } return sched_real_poll(fds,n,timeout); }
+extern "C" int epoll_wait(int ep,struct epoll_event *evs,int n,int timeout){ if(SCHED_TRACKED()&&timeout!=0){ sched::Thread *t=sched::G.threads[sched::tl_id]; t->probe=[ep](){ struct epoll_event e[8]; return sched_real_epoll_wait(ep,e,8,0)>0; }; t->deadline_ms= timeout<0?-1:sched::G.vnow_ms+timeout; sched::point(sched::OP_POLL,0); t->probe=std::function<bool()>(); t->deadline_ms=-1; return sched_real_epoll_wait(ep,evs,n,0); } return sched_real_epoll_wait(ep,evs,n,timeout); }
+extern "C" int select(int nfds,fd_set *r,fd_set *w,fd_set *e,struct timeval *tv){ typedef int (*fn)(int,fd_set*,fd_set*,fd_set*,struct timeval*); static fn real=(fn)dlsym(RTLD_NEXT,"select"); bool zero= tv&&tv->tv_sec==0&&tv->tv_usec==0;
+	if(SCHED_TRACKED()&&!zero){ sched::Thread *t=sched::G.threads[sched::tl_id]; fd_set rr,ww,ee; FD_ZERO(&rr); FD_ZERO(&ww); FD_ZERO(&ee); if(r) rr=*r; if(w) ww=*w; if(e) ee=*e; t->probe=[nfds,rr,ww,ee]()mutable{ fd_set a=rr,b=ww,c=ee; struct timeval z; z.tv_sec=0; z.tv_usec=0; return real(nfds,&a,&b,&c,&z)>0; }; t->deadline_ms= tv? sched::G.vnow_ms+tv->tv_sec*1000LL+(tv->tv_usec+999)/1000 : -1; sched::point(sched::OP_POLL,0); t->probe=std::function<bool()>(); t->deadline_ms=-1; struct timeval z; z.tv_sec=0; z.tv_usec=0; return real(nfds,r,w,e,&z); } return real(nfds,r,w,e,tv); }
+// ---- virtual clock (only while the harness switched it on) -----------------------------------------------------------------
+#ifdef SCHED_VIRTUAL_CLOCK
+static const long long SCHED_EPOCH=1700000000LL;
+extern "C" int gettimeofday(struct timeval *tv,void *tz){ if(sched::G.virtual_clock){ if(tv){ tv->tv_sec=SCHED_EPOCH+sched::G.vnow_ms/1000; tv->tv_usec=(sched::G.vnow_ms%1000)*1000; } return 0; } return syscall(SYS_gettimeofday,tv,tz); }
+extern "C" time_t time(time_t *t){ time_t v; if(sched::G.virtual_clock) v=SCHED_EPOCH+sched::G.vnow_ms/1000; else { struct timeval tv; syscall(SYS_gettimeofday,&tv,0); v=tv.tv_sec; } if(t) *t=v; return v; }
+#endif
